@@ -4,10 +4,14 @@ C18: content in a foreign XML namespace is invisible to the metadata reader
 
 * `Foreign`            an element of a namespace that is neither empty nor the E57 one, all of whose
                        descendant elements are of that kind too
-* `Ins` / `InsStar`    one / any number of insertions of foreign elements or foreign attributes
+* `Ins` / `InsStar`    one / any number of insertions of foreign elements (at ANY position among the
+                       children of any element outside a prototype: also in front of, or in the middle
+                       of, the text of a leaf), comments, PIs, or foreign attributes
+* `textOf_insert_nontext`, `textOf_split_text`   `xml::text_of` (all text pieces) does not see them
 * `*_ins`              every `from_node` function of the reader is invariant under one insertion
 * `C18_foreign_invisible`, `Reader_open_foreign`   the capstones
-* `textOf_shadowed_by_leading_element`, `nonforeign_shadows`   what delimits the property
+* `textOf_not_shadowed_by_leading_element` (positive, replaces `textOf_shadowed_by_leading_element`),
+  `nonforeign_shadows`   what delimits the property
 * `recordNameOf_foreign`, `prototype_insert_foreign_record`    extension records of a prototype
 
 Core Lean only.
@@ -113,27 +117,47 @@ theorem Foreign.find_descendants {f : XNode} (h : Foreign f) (x : String) :
 
 /-! ## 2. insertion of foreign content -/
 
-/-- the first child is a text node (the only child `textOf` ever looks at) -/
-def startsWithText : List XNode → Bool
-  | .text _ :: _ => true
+/-- a comment or a processing instruction -/
+def XNode.isInert : XNode → Bool
+  | .comment => true
+  | .pi => true
   | _ => false
+
+/-- `f` is a comment or a processing instruction -/
+def Inert (f : XNode) : Prop := f.isInert = true
+
+instance (f : XNode) : Decidable (Inert f) := by unfold Inert; exact inferInstance
 
 /-- `Ins t t'`: `t'` is `t` with one piece of foreign content added somewhere.
 
-* `insElem`: a foreign element `f` is inserted among the children of an element, at any position,
-  except (i) directly into a `prototype` element (there it is a new record: section 7) and
-  (ii) in front of a text node that is the first child (`l ≠ [] ∨ startsWithText r = false`):
-  `text()` of roxmltree only looks at the first child (see `textOf_shadowed_by_leading_element`).
+* `insElem`: a foreign element `f` is inserted among the children of ANY element, leaf elements included,
+  at ANY position — also in front of, or between, the text of a `String` / `Float` / `Integer` leaf —
+  except directly into a `prototype` element (there it is a new record: section 7).
+  (`xml::text_of` concatenates all text pieces: `textOf_insert_nontext`.  With roxmltree's `text()`, used
+  before, the position in front of a leading text node had to be excluded.)
+* `insMisc`: a comment or a processing instruction is inserted anywhere, a `prototype` included.
+* `splitText`: a text node is cut in two.  Together with `insElem` / `insMisc` this is the insertion of a
+  foreign element, a comment or a PI in the MIDDLE of a text (`InsStar.insert_in_text`): the parser then
+  reports two text nodes around the inserted node, and their concatenation is the old text.
 * `addAttr`: an attribute with a namespace is added to any element, at any position.
 * `child`: one of the above happens inside a child.
 
 This is more liberal than "nothing changes at or below a prototype": foreign attributes, and foreign
-elements below the record elements of a prototype, are allowed as well. -/
+elements below the record elements of a prototype, are allowed as well.
+
+What cannot be inserted is foreign TEXT: a text node has no namespace, it is part of the content of the
+element it stands in (and changes `textOf` of that element). -/
 inductive Ins : XNode → XNode → Prop
   | insElem (ns p name attrs) (l : List XNode) (f : XNode) (r : List XNode) :
       (XNode.elem ns p name attrs (l ++ r)).hasTagName "prototype" = false →
-      Foreign f → (l ≠ [] ∨ startsWithText r = false) →
+      Foreign f →
       Ins (.elem ns p name attrs (l ++ r)) (.elem ns p name attrs (l ++ f :: r))
+  | insMisc (ns p name attrs) (l : List XNode) (f : XNode) (r : List XNode) :
+      Inert f →
+      Ins (.elem ns p name attrs (l ++ r)) (.elem ns p name attrs (l ++ f :: r))
+  | splitText (ns p name attrs) (l : List XNode) (a b : String) (r : List XNode) :
+      Ins (.elem ns p name attrs (l ++ .text (a ++ b) :: r))
+        (.elem ns p name attrs (l ++ .text a :: .text b :: r))
   | addAttr (ns p name) (al : List XAttr) (a : XAttr) (ar : List XAttr) (cs) :
       ForeignAttr a →
       Ins (.elem ns p name (al ++ ar) cs) (.elem ns p name (al ++ a :: ar) cs)
@@ -152,6 +176,26 @@ theorem InsStar.trans {t u v} (h1 : InsStar t u) (h2 : InsStar u v) : InsStar t 
   induction h2 with
   | refl => exact h1
   | step _ h ih => exact .step ih h
+
+/-- a foreign element inserted in the MIDDLE of a text (outside a prototype): two insertion steps -/
+theorem InsStar.insert_in_text (ns p name attrs) (l : List XNode) (a b : String) (f : XNode)
+    (r : List XNode)
+    (hp : (XNode.elem ns p name attrs (l ++ .text (a ++ b) :: r)).hasTagName "prototype" = false)
+    (hf : Foreign f) :
+    InsStar (.elem ns p name attrs (l ++ .text (a ++ b) :: r))
+      (.elem ns p name attrs (l ++ .text a :: f :: .text b :: r)) := by
+  refine .step (.single (.splitText ns p name attrs l a b r)) ?_
+  have h := Ins.insElem ns p name attrs (l ++ [.text a]) f (.text b :: r) hp hf
+  simpa only [List.append_assoc, List.cons_append, List.nil_append] using h
+
+/-- a comment or a PI inserted in the middle of a text, anywhere -/
+theorem InsStar.insert_misc_in_text (ns p name attrs) (l : List XNode) (a b : String) (f : XNode)
+    (r : List XNode) (hf : Inert f) :
+    InsStar (.elem ns p name attrs (l ++ .text (a ++ b) :: r))
+      (.elem ns p name attrs (l ++ .text a :: f :: .text b :: r)) := by
+  refine .step (.single (.splitText ns p name attrs l a b r)) ?_
+  have h := Ins.insMisc ns p name attrs (l ++ [.text a]) f (.text b :: r) hf
+  simpa only [List.append_assoc, List.cons_append, List.nil_append] using h
 
 /-- zero or one insertion (what relates the nodes two runs of the reader look at) -/
 def InsR (t t' : XNode) : Prop := t = t' ∨ Ins t t'
@@ -190,6 +234,8 @@ theorem Ins.tagLocal (h : Ins t t') : t'.tagLocal = t.tagLocal := by cases h <;>
 theorem Ins.attr (h : Ins t t') (x : String) : t'.attr x = t.attr x := by
   cases h with
   | insElem => rfl
+  | insMisc => rfl
+  | splitText => rfl
   | child => rfl
   | addAttr ns p name al a ar cs ha =>
     unfold ForeignAttr at ha
@@ -198,49 +244,113 @@ theorem Ins.attr (h : Ins t t') (x : String) : t'.attr x = t.attr x := by
     simp only [XNode.attr]
     rw [List.find?_insert (p := fun (a : XAttr) => a.ns.isNone && a.name == x) (f := a) this al ar]
 
-/-- the text of a leading text node -/
-def firstText : List XNode → Option String
-  | .text s :: _ => some s
-  | _ => none
-
-theorem textOf_elem (ns p name attrs) (cs : List XNode) :
-    (XNode.elem ns p name attrs cs).textOf = firstText cs := by
-  cases cs with
-  | nil => rfl
-  | cons c cs => cases c <;> rfl
-
-theorem firstText_cons_append (x : XNode) (l r : List XNode) :
-    firstText (x :: l ++ r) = firstText [x] := by
-  cases x <;> rfl
-
-theorem firstText_of_isElement {c : XNode} (hc : c.isElement = true) (r : List XNode) :
-    firstText (c :: r) = none := by
-  cases c <;> simp_all [firstText, XNode.isElement]
-
 theorem Ins.isElement_left (h : Ins t t') : t.isElement = true := by cases h <;> rfl
 theorem Ins.isElement_right (h : Ins t t') : t'.isElement = true := by cases h <;> rfl
 
-/-- `text()` only looks at the first child -/
+end basic
+
+/-! ### `xml::text_of`: all the text pieces -/
+
+/-- a text node -/
+def XNode.isText : XNode → Bool
+  | .text _ => true
+  | _ => false
+
+theorem isText_of_isElement {c : XNode} (h : c.isElement = true) : c.isText = false := by
+  cases c <;> simp_all [XNode.isText, XNode.isElement]
+
+theorem Foreign.not_isText {f : XNode} (h : Foreign f) : f.isText = false := isText_of_isElement h.1
+
+theorem Inert.not_isText {f : XNode} (h : Inert f) : f.isText = false := by
+  cases f <;> simp_all [Inert, XNode.isInert, XNode.isText]
+
+theorem Inert.not_isElement {f : XNode} (h : Inert f) : f.isElement = false := by
+  cases f <;> simp_all [Inert, XNode.isInert, XNode.isElement]
+
+theorem hasTagName_of_not_isElement {c : XNode} (h : c.isElement = false) (x : String) :
+    c.hasTagName x = false := by
+  cases c <;> simp_all [XNode.hasTagName, XNode.isElement]
+
+theorem Inert.find_descendants {f : XNode} (h : Inert f) (x : String) :
+    f.descendants.find? (fun c => c.hasTagName x) = none := by
+  cases f <;> simp_all [Inert, XNode.isInert, descendants, XNode.hasTagName]
+
+/-- the concatenation `xml::text_of` forms of the pieces: `None` if there is no piece -/
+def joinPieces : List String → Option String
+  | [] => none
+  | t :: ts => some (ts.foldl (· ++ ·) t)
+
+theorem textOf_elem (ns p name attrs) (cs : List XNode) :
+    (XNode.elem ns p name attrs cs).textOf = joinPieces (textPieces cs) := by
+  simp only [XNode.textOf, XNode.children]
+  cases textPieces cs <;> rfl
+
+theorem textPieces_cons_nontext {c : XNode} (hc : c.isText = false) (r : List XNode) :
+    textPieces (c :: r) = textPieces r := by
+  cases c <;> simp_all [textPieces, XNode.isText]
+
+theorem textPieces_append (l r : List XNode) :
+    textPieces (l ++ r) = textPieces l ++ textPieces r := by
+  induction l with
+  | nil => rfl
+  | cons c l ih => cases c <;> simp [textPieces, ih]
+
+/-- a node that is not a text node — an element, a comment, a PI — inserted at any position among the
+    children does not change the text pieces -/
+theorem textPieces_insert_nontext {c : XNode} (hc : c.isText = false) (l r : List XNode) :
+    textPieces (l ++ c :: r) = textPieces (l ++ r) := by
+  rw [textPieces_append, textPieces_append, textPieces_cons_nontext hc]
+
+/-- **the key fact of the repaired reader**: inserting a non-text node anywhere among the children of an
+    element — in front of its text, behind it, between two pieces — does not change `textOf` -/
+theorem textOf_insert_nontext (ns p name attrs) {c : XNode} (hc : c.isText = false)
+    (l r : List XNode) :
+    (XNode.elem ns p name attrs (l ++ c :: r)).textOf = (XNode.elem ns p name attrs (l ++ r)).textOf := by
+  rw [textOf_elem, textOf_elem, textPieces_insert_nontext hc]
+
+/-- replacing one non-text child by another one does not change `textOf` either -/
+theorem textOf_replace_nontext (ns p name attrs) {c c' : XNode} (hc : c.isText = false)
+    (hc' : c'.isText = false) (l r : List XNode) :
+    (XNode.elem ns p name attrs (l ++ c' :: r)).textOf =
+      (XNode.elem ns p name attrs (l ++ c :: r)).textOf := by
+  rw [textOf_insert_nontext _ _ _ _ hc, textOf_insert_nontext _ _ _ _ hc']
+
+theorem joinPieces_split (xs : List String) (a b : String) (ys : List String) :
+    joinPieces (xs ++ a :: b :: ys) = joinPieces (xs ++ (a ++ b) :: ys) := by
+  cases xs with
+  | nil => rfl
+  | cons x xs =>
+    simp only [List.cons_append, joinPieces, List.foldl_append, List.foldl_cons, String.append_assoc]
+
+/-- a text cut in two (what a node inserted in the middle of a text does to it): the concatenation of
+    the pieces is the old text -/
+theorem textOf_split_text (ns p name attrs) (l : List XNode) (a b : String) (r : List XNode) :
+    (XNode.elem ns p name attrs (l ++ .text a :: .text b :: r)).textOf =
+      (XNode.elem ns p name attrs (l ++ .text (a ++ b) :: r)).textOf := by
+  simp only [textOf_elem, textPieces_append, textPieces, joinPieces_split]
+
+/-- ... hence a non-text node `c` that splits a text in two leaves `textOf` unchanged -/
+theorem textOf_insert_in_text (ns p name attrs) {c : XNode} (hc : c.isText = false)
+    (l : List XNode) (a b : String) (r : List XNode) :
+    (XNode.elem ns p name attrs (l ++ .text a :: c :: .text b :: r)).textOf =
+      (XNode.elem ns p name attrs (l ++ .text (a ++ b) :: r)).textOf := by
+  have h := textOf_insert_nontext ns p name attrs hc (l ++ [.text a]) (.text b :: r)
+  simp only [List.append_assoc, List.cons_append, List.nil_append] at h
+  rw [h, textOf_split_text]
+
+section basic
+variable {t t' : XNode}
+
+/-- `xml::text_of` is invariant under every insertion step, at every position -/
 theorem Ins.textOf (h : Ins t t') : t'.textOf = t.textOf := by
   cases h with
-  | addAttr => simp only [textOf_elem]
-  | insElem ns p name attrs l f r _ hf hpos =>
-    simp only [textOf_elem]
-    cases l with
-    | cons x l => rw [firstText_cons_append, firstText_cons_append]
-    | nil =>
-      have hr : startsWithText r = false := by simpa using hpos
-      rw [List.nil_append, List.nil_append, firstText_of_isElement hf.1]
-      cases r with
-      | nil => rfl
-      | cons y r => cases y <;> simp_all [firstText, startsWithText]
+  | addAttr => rfl
+  | insElem ns p name attrs l f r _ hf => exact textOf_insert_nontext ns p name attrs hf.not_isText l r
+  | insMisc ns p name attrs l f r hf => exact textOf_insert_nontext ns p name attrs hf.not_isText l r
+  | splitText ns p name attrs l a b r => exact textOf_split_text ns p name attrs l a b r
   | child ns p name attrs l c c' r hc =>
-    simp only [textOf_elem]
-    cases l with
-    | cons x l => rw [firstText_cons_append, firstText_cons_append]
-    | nil =>
-      rw [List.nil_append, List.nil_append, firstText_of_isElement hc.isElement_left,
-        firstText_of_isElement hc.isElement_right]
+    exact textOf_replace_nontext ns p name attrs (isText_of_isElement hc.isElement_left)
+      (isText_of_isElement hc.isElement_right) l r
 
 theorem InsR.hasTagName (h : InsR t t') (x : String) : t'.hasTagName x = t.hasTagName x := by
   rcases h with rfl | h; rfl; exact h.hasTagName x
@@ -259,21 +369,25 @@ theorem InsR.tagLocal (h : InsR t t') : t'.tagLocal = t.tagLocal := by
 
 end basic
 
-/-- the child predicates the reader uses: never true of a foreign element, stable under insertion -/
+/-- the child predicates the reader uses: never true of a foreign element, nor of a text node, a
+    comment or a PI; stable under insertion -/
 structure StdPred (p : XNode → Bool) : Prop where
   foreign : ∀ f, Foreign f → p f = false
+  nonelem : ∀ c, c.isElement = false → p c = false
   ins : ∀ c c', Ins c c' → p c' = p c
 
 theorem StdPred.tag (x : String) : StdPred (fun c => c.hasTagName x) :=
-  ⟨fun _ hf => hf.hasTagName x, fun _ _ h => h.hasTagName x⟩
+  ⟨fun _ hf => hf.hasTagName x, fun _ hc => hasTagName_of_not_isElement hc x,
+   fun _ _ h => h.hasTagName x⟩
 
 theorem StdPred.tagAttr (x a : String) (v : Option String) :
     StdPred (fun n => n.hasTagName x && n.attr a == v) :=
-  ⟨fun _ hf => by simp [hf.hasTagName x], fun _ _ h => by simp only [h.hasTagName, h.attr]⟩
+  ⟨fun _ hf => by simp [hf.hasTagName x], fun _ hc => by simp [hasTagName_of_not_isElement hc x],
+   fun _ _ h => by simp only [h.hasTagName, h.attr]⟩
 
 theorem StdPred.elemTagAttr (x a : String) (v : Option String) :
     StdPred (fun n => n.isElement && n.hasTagName x && n.attr a == v) :=
-  ⟨fun _ hf => by simp [hf.hasTagName x],
+  ⟨fun _ hf => by simp [hf.hasTagName x], fun _ hc => by simp [hc],
    fun _ _ h => by simp only [h.hasTagName, h.attr, h.isElement]⟩
 
 /-- `children().find(p)` before and after: nothing twice, or the same child up to an insertion -/
@@ -290,8 +404,13 @@ theorem find_children_ins {p : XNode → Bool} (hp : StdPred p) {t t' : XNode} (
   · exact same rfl
   cases h with
   | addAttr => exact same rfl
-  | insElem ns q name attrs l f r _ hf _ =>
+  | insElem ns q name attrs l f r _ hf =>
     exact same (List.find?_insert (hp.foreign f hf) l r)
+  | insMisc ns q name attrs l f r hf =>
+    exact same (List.find?_insert (hp.nonelem f hf.not_isElement) l r)
+  | splitText ns q name attrs l a b r =>
+    refine same ?_
+    simp only [XNode.children, List.find?_append, List.find?_cons, hp.nonelem (.text _) rfl]
   | child ns q name attrs l c c' r hc =>
     simp only [XNode.children, List.find?_append, List.find?_cons, hp.ins c c' hc]
     cases hl : l.find? p with
@@ -307,18 +426,24 @@ theorem findChild_ins {t t' : XNode} (h : InsR t t') (tag : String) :
   find_children_ins (StdPred.tag tag) h
 
 /-- `children().filter(p).map(g)` for any `g` that insertions do not affect; `p` only has to reject
-    foreign elements where they may be inserted (outside a `prototype`) -/
+    foreign elements where they may be inserted (outside a `prototype`), and whatever is not an element -/
 theorem filter_children_ins_gen {p : XNode → Bool} {t t' : XNode}
     (hins : ∀ c c', Ins c c' → p c' = p c)
     (hfor : t.hasTagName "prototype" = false → ∀ f, Foreign f → p f = false)
+    (hne : ∀ c, c.isElement = false → p c = false)
     {β} {g : XNode → β} (hg : ∀ c c', Ins c c' → g c' = g c) (h : InsR t t') :
     (t'.children.filter p).map g = (t.children.filter p).map g := by
   rcases h with rfl | h
   · rfl
   cases h with
   | addAttr => rfl
-  | insElem ns q name attrs l f r hproto hf _ =>
+  | insElem ns q name attrs l f r hproto hf =>
     simp only [XNode.children, List.filter_insert (hfor hproto f hf)]
+  | insMisc ns q name attrs l f r hf =>
+    simp only [XNode.children, List.filter_insert (hne f hf.not_isElement)]
+  | splitText ns q name attrs l a b r =>
+    simp only [XNode.children, List.filter_append, List.filter_cons, hne (.text _) rfl,
+      Bool.false_eq_true, if_false]
   | child ns q name attrs l c c' r hc =>
     simp only [XNode.children, List.filter_append, List.filter_cons, hins c c' hc]
     cases p c <;> simp [hg c c' hc]
@@ -326,7 +451,7 @@ theorem filter_children_ins_gen {p : XNode → Bool} {t t' : XNode}
 theorem filter_children_ins {p : XNode → Bool} (hp : StdPred p) {β} {g : XNode → β}
     (hg : ∀ c c', Ins c c' → g c' = g c) {t t' : XNode} (h : InsR t t') :
     (t'.children.filter p).map g = (t.children.filter p).map g :=
-  filter_children_ins_gen hp.ins (fun _ => hp.foreign) hg h
+  filter_children_ins_gen hp.ins (fun _ => hp.foreign) hp.nonelem hg h
 
 /-- `Option`'s `mapM` is "map, then succeed iff all succeed" -/
 def seqOpt {α} : List (Option α) → Option (List α)
@@ -361,17 +486,39 @@ theorem findDescendant_ins {t t' : XNode} (h : Ins t t') (tag : String) :
     cases (XNode.elem ns q name (al ++ ar) cs).hasTagName tag with
     | true => exact .inr ⟨_, _, rfl, rfl, .inr (.addAttr ns q name al a ar cs ha)⟩
     | false => exact same rfl
-  | insElem ns q name attrs l f r hproto hf hpos =>
+  | insElem ns q name attrs l f r hproto hf =>
     simp only [descendants, List.find?_cons]
     have e : (XNode.elem ns q name attrs (l ++ f :: r)).hasTagName tag =
         (XNode.elem ns q name attrs (l ++ r)).hasTagName tag := rfl
     rw [e]
     cases (XNode.elem ns q name attrs (l ++ r)).hasTagName tag with
-    | true => exact .inr ⟨_, _, rfl, rfl, .inr (.insElem ns q name attrs l f r hproto hf hpos)⟩
+    | true => exact .inr ⟨_, _, rfl, rfl, .inr (.insElem ns q name attrs l f r hproto hf)⟩
     | false =>
       refine same ?_
       simp only [descendantsList_append, descendantsList, List.find?_append, hf.find_descendants tag,
         Option.none_or]
+  | insMisc ns q name attrs l f r hf =>
+    simp only [descendants, List.find?_cons]
+    have e : (XNode.elem ns q name attrs (l ++ f :: r)).hasTagName tag =
+        (XNode.elem ns q name attrs (l ++ r)).hasTagName tag := rfl
+    rw [e]
+    cases (XNode.elem ns q name attrs (l ++ r)).hasTagName tag with
+    | true => exact .inr ⟨_, _, rfl, rfl, .inr (.insMisc ns q name attrs l f r hf)⟩
+    | false =>
+      refine same ?_
+      simp only [descendantsList_append, descendantsList, List.find?_append, hf.find_descendants tag,
+        Option.none_or]
+  | splitText ns q name attrs l a b r =>
+    simp only [descendants, List.find?_cons]
+    have e : (XNode.elem ns q name attrs (l ++ .text a :: .text b :: r)).hasTagName tag =
+        (XNode.elem ns q name attrs (l ++ .text (a ++ b) :: r)).hasTagName tag := rfl
+    rw [e]
+    cases (XNode.elem ns q name attrs (l ++ .text (a ++ b) :: r)).hasTagName tag with
+    | true => exact .inr ⟨_, _, rfl, rfl, .inr (.splitText ns q name attrs l a b r)⟩
+    | false =>
+      refine same ?_
+      simp [descendantsList_append, descendantsList, descendants, List.find?_append, List.find?_cons,
+        XNode.hasTagName]
   | child ns q name attrs l c c' r hc ih =>
     simp only [descendants, List.find?_cons]
     have e : (XNode.elem ns q name attrs (l ++ c' :: r)).hasTagName tag =
@@ -568,7 +715,7 @@ theorem prototypeFromNode_ins (fp : FloatParse) (h : InsR t t')
     (hp : t.hasTagName "prototype" = true) : prototypeFromNode fp t' = prototypeFromNode fp t := by
   unfold prototypeFromNode
   rw [mapM_eq_seqOpt, mapM_eq_seqOpt]
-  refine congrArg seqOpt (filter_children_ins_gen (fun c c' hc => hc.isElement) ?_ ?_ h)
+  refine congrArg seqOpt (filter_children_ins_gen (fun c c' hc => hc.isElement) ?_ (fun _ hc => hc) ?_ h)
   · intro hn; rw [hp] at hn; cases hn
   · intro c c' hc
     simp only [DataType_fromNode_ins fp (.inr hc), recordNameOf_ins (.inr hc)]
@@ -746,9 +893,10 @@ theorem extensionsFromDocument_add_silent (root root' : XNode) (l r : List (Opti
   rcases hu with rfl | rfl <;>
     simp [extensionsFromDocument, List.filterMap_append, List.filterMap_cons]
 
-/-- **C18.**  If the root of `d'` is the root of `d` with any number of foreign elements and foreign
-    attributes inserted (anywhere but directly inside a `prototype`, and never in front of a leading
-    text node), the reader reports the same file, point cloud and image metadata. -/
+/-- **C18.**  If the root of `d'` is the root of `d` with any number of foreign elements, comments, PIs
+    and foreign attributes inserted — foreign elements at ANY position among the children of ANY element,
+    leaf elements included (in front of, behind, or in the middle of their text), only not directly inside
+    a `prototype` — the reader reports the same file, point cloud and image metadata. -/
 theorem C18_foreign_invisible (fp : FloatParse) (d d' : XDoc) (h : InsStar d.root d'.root) :
     rootFromDocument fp d' = rootFromDocument fp d ∧
     pointcloudsFromDocument fp d' = pointcloudsFromDocument fp d ∧
@@ -857,8 +1005,16 @@ theorem points_and_blobs_unchanged (file : Bytes) (fp : FloatParse) (xo xo' : Xm
 inductive InsStrict : XNode → XNode → Prop
   | insElem (ns p name attrs) (l : List XNode) (f : XNode) (r : List XNode) :
       (XNode.elem ns p name attrs (l ++ r)).hasTagName "prototype" = false →
-      Foreign f → (l ≠ [] ∨ startsWithText r = false) →
+      Foreign f →
       InsStrict (.elem ns p name attrs (l ++ r)) (.elem ns p name attrs (l ++ f :: r))
+  | insMisc (ns p name attrs) (l : List XNode) (f : XNode) (r : List XNode) :
+      (XNode.elem ns p name attrs (l ++ r)).hasTagName "prototype" = false →
+      Inert f →
+      InsStrict (.elem ns p name attrs (l ++ r)) (.elem ns p name attrs (l ++ f :: r))
+  | splitText (ns p name attrs) (l : List XNode) (a b : String) (r : List XNode) :
+      (XNode.elem ns p name attrs (l ++ .text (a ++ b) :: r)).hasTagName "prototype" = false →
+      InsStrict (.elem ns p name attrs (l ++ .text (a ++ b) :: r))
+        (.elem ns p name attrs (l ++ .text a :: .text b :: r))
   | addAttr (ns p name) (al : List XAttr) (a : XAttr) (ar : List XAttr) (cs) :
       (XNode.elem ns p name (al ++ ar) cs).hasTagName "prototype" = false →
       ForeignAttr a →
@@ -870,39 +1026,64 @@ inductive InsStrict : XNode → XNode → Prop
 
 theorem InsStrict.toIns {t t' : XNode} (h : InsStrict t t') : Ins t t' := by
   induction h with
-  | insElem ns p name attrs l f r h1 h2 h3 => exact .insElem ns p name attrs l f r h1 h2 h3
+  | insElem ns p name attrs l f r h1 h2 => exact .insElem ns p name attrs l f r h1 h2
+  | insMisc ns p name attrs l f r _ h2 => exact .insMisc ns p name attrs l f r h2
+  | splitText ns p name attrs l a b r _ => exact .splitText ns p name attrs l a b r
   | addAttr ns p name al a ar cs _ h2 => exact .addAttr ns p name al a ar cs h2
   | child ns p name attrs l c c' r _ _ ih => exact .child ns p name attrs l c c' r ih
 
 /-! ## 6. what delimits the property -/
 
-/-- any element in front of the text of a leaf hides that text from `text()` -/
-theorem textOf_leading_element (ns p name attrs) (f : XNode) (hf : f.isElement = true)
-    (rest : List XNode) : (XNode.elem ns p name attrs (f :: rest)).textOf = none := by
-  rw [textOf_elem, firstText_of_isElement hf]
+/-- an element in front of the text of a leaf does NOT hide that text (it did, from roxmltree's
+    `text()`; this theorem replaces `textOf_leading_element`, which stated `… = none`) -/
+theorem textOf_leading_element_ignored (ns p name attrs) (f : XNode) (hf : f.isElement = true)
+    (rest : List XNode) :
+    (XNode.elem ns p name attrs (f :: rest)).textOf = (XNode.elem ns p name attrs rest).textOf :=
+  textOf_insert_nontext ns p name attrs (isText_of_isElement hf) [] rest
 
 def exForeign : XNode := .elem (some "http://example.com/ext") (some "ext") "guid" [] []
 def exGuid : XNode := .elem none none "guid" [⟨none, "type", "String"⟩] [.text "abc"]
-def exGuidShadowed : XNode :=
+/-- a foreign element in FRONT of the text of the leaf -/
+def exGuidLed : XNode :=
   .elem none none "guid" [⟨none, "type", "String"⟩] [exForeign, .text "abc"]
+/-- a foreign element, a comment and a PI in the MIDDLE of the text of the leaf -/
+def exGuidSplit : XNode :=
+  .elem none none "guid" [⟨none, "type", "String"⟩]
+    [.text "a", exForeign, .text "b", .comment, .pi, .text "c"]
 def exMajor : XNode := .elem none none "versionMajor" [⟨none, "type", "Integer"⟩] [.text "1"]
-def exMajorShadowed : XNode :=
+def exMajorLed : XNode :=
   .elem none none "versionMajor" [⟨none, "type", "Integer"⟩] [exForeign, .text "1"]
 
 theorem exForeign_foreign : Foreign exForeign := by
   simp [Foreign, exForeign, XNode.isElement, XNode.isForeign, XNode.isForeignList, isForeignNs,
     e57NsUri]
 
-/-- (6a) a foreign element inserted as the FIRST child of a String / Integer leaf that has text:
-    `text()` is `None`, the String reads as "" and the Integer as 0.  Hence side condition (ii). -/
-theorem textOf_shadowed_by_leading_element :
+/-- (6a) a foreign element inserted as the FIRST child of a String / Integer leaf that has text, or in
+    the middle of that text, is invisible: the String and the Integer read as before.
+    (This replaces `textOf_shadowed_by_leading_element`, which documented the behaviour of roxmltree's
+    `text()`: `None`, hence "" and 0.  That statement is false for `xml::text_of`.) -/
+theorem textOf_not_shadowed_by_leading_element :
     Foreign exForeign ∧
-    exGuid.textOf = some "abc" ∧ exGuidShadowed.textOf = none ∧
+    exGuid.textOf = some "abc" ∧ exGuidLed.textOf = some "abc" ∧ exGuidSplit.textOf = some "abc" ∧
     optString (.elem none none "e57Root" [] [exGuid]) "guid" = some (some "abc") ∧
-    optString (.elem none none "e57Root" [] [exGuidShadowed]) "guid" = some (some "") ∧
+    optString (.elem none none "e57Root" [] [exGuidLed]) "guid" = some (some "abc") ∧
+    optString (.elem none none "e57Root" [] [exGuidSplit]) "guid" = some (some "abc") ∧
     optI64 (.elem none none "e57Root" [] [exMajor]) "versionMajor" = some (some 1) ∧
-    optI64 (.elem none none "e57Root" [] [exMajorShadowed]) "versionMajor" = some (some 0) := by
-  refine ⟨exForeign_foreign, rfl, rfl, ?_, ?_, ?_, ?_⟩ <;> decide
+    optI64 (.elem none none "e57Root" [] [exMajorLed]) "versionMajor" = some (some 1) := by
+  refine ⟨exForeign_foreign, rfl, rfl, ?_, ?_, ?_, ?_, ?_, ?_⟩ <;> decide
+
+/-- the three trees are insertions of one another -/
+theorem exGuid_insStar : InsStar exGuid exGuidLed ∧ InsStar exGuid exGuidSplit := by
+  refine ⟨.single (.insElem none none "guid" _ [] exForeign [.text "abc"] (by decide)
+    exForeign_foreign), ?_⟩
+  have s1 : InsStar exGuid
+      (.elem none none "guid" [⟨none, "type", "String"⟩] [.text "a", exForeign, .text "bc"]) :=
+    InsStar.insert_in_text none none "guid" _ [] "a" "bc" exForeign [] (by decide) exForeign_foreign
+  have s2 := InsStar.insert_misc_in_text none none "guid" [⟨none, "type", "String"⟩]
+    [.text "a", exForeign] "b" "c" .comment [] rfl
+  have s3 := Ins.insMisc none none "guid" [⟨none, "type", "String"⟩]
+    [.text "a", exForeign, .text "b", .comment] .pi [.text "c"] rfl
+  exact .step (s1.trans s2) s3
 
 def exEvil (ns : Option String) : XNode :=
   .elem ns none "guid" [⟨none, "type", "String"⟩] [.text "evil"]
@@ -920,17 +1101,18 @@ theorem nonforeign_shadows :
   · simp [Foreign, exEvil, XNode.isForeign, isForeignNs]
   all_goals decide
 
-/-- sanity: the relation is inhabited where it should be — the same foreign element placed AFTER the
-    text of the leaf, next to the leaf, and a foreign attribute on the leaf are all insertions -/
+/-- sanity: the relation is inhabited where it should be — the same foreign element placed IN FRONT of
+    the text of the leaf, AFTER it, next to the leaf, and a foreign attribute on the leaf are all
+    insertions -/
 example :
+    Ins exGuid exGuidLed ∧
     Ins exGuid (.elem none none "guid" [⟨none, "type", "String"⟩] [.text "abc", exForeign]) ∧
     Ins (.elem none none "e57Root" [] [exGuid]) (.elem none none "e57Root" [] [exForeign, exGuid]) ∧
     Ins exGuid (.elem none none "guid" [⟨some "http://example.com/ext", "unit", "m"⟩,
       ⟨none, "type", "String"⟩] [.text "abc"]) :=
-  ⟨.insElem none none "guid" _ [.text "abc"] exForeign [] (by decide) exForeign_foreign
-      (.inl (by simp)),
-   .insElem none none "e57Root" [] [] exForeign [exGuid] (by decide) exForeign_foreign
-      (.inr (by decide)),
+  ⟨.insElem none none "guid" _ [] exForeign [.text "abc"] (by decide) exForeign_foreign,
+   .insElem none none "guid" _ [.text "abc"] exForeign [] (by decide) exForeign_foreign,
+   .insElem none none "e57Root" [] [] exForeign [exGuid] (by decide) exForeign_foreign,
    .addAttr none none "guid" [] ⟨some "http://example.com/ext", "unit", "m"⟩
       [⟨none, "type", "String"⟩] [.text "abc"] rfl⟩
 
